@@ -23,7 +23,8 @@ CONSTANTS Peers, Hashes,
           MaxPend,    \* maxPendingPushes
           Horizon,    \* bound on time (model runs only)
           HeadCheck,  \* TRUE: the loop re-validates the peeked head under the mutex (repaired code)
-          MaxHold     \* how many announcers may be pre-empted at the cap evaluation at a time (per hash)
+          MaxHold,    \* how many announcers may be pre-empted at the cap evaluation at a time (per hash)
+          CritOn      \* TRUE: the loop may be pre-empted INSIDE its critical section (at its holder.Has() call)
 
 None == -1
 
@@ -32,7 +33,8 @@ VARIABLES now,      \* current tick
           cnt,      \* [Hashes -> Nat]: manager's announcement counter (pendingPushes cache)
           active,   \* [Hashes -> Int]: time of the last pull request (None = no active pull)
           pend,     \* sequence of [p, h, t]: pending announcers sorted by t (stable)
-          pc,       \* "idle" | "sleep": where the tracker loop is
+          pc,       \* "idle" | "sleep" | "crit": where the tracker loop is ("crit" = inside its critical section, holding the
+                    \*   tracker mutex, head re-validated, about to ask the holder)
           obj,      \* the entry the loop peeked (meaningful when pc = "sleep")
           out,      \* sequence of [p, h]: pull requests emitted by the LAST step (output)
           pulls,    \* [Hashes -> Seq(Int)]: times of the pull requests per hash within the last D ticks (history)
@@ -122,17 +124,25 @@ DoArrive(s0, h) == [s0 EXCEPT !.out = <<>>, !.has = @ \cup {h}, !.active[h] = No
 Recent(ts, t) == SelectSeq(ts, LAMBDA x : t - x < D)
 DoTick(s0) == [s0 EXCEPT !.out = <<>>, !.now = @ + 1, !.pulls = [h \in Hashes |-> Recent(s0.pulls[h], s0.now + 1)]]
 
-(* the part of a loop iteration after the (possible) sleep *)
-Finish(s, o) ==
+(* the part of a loop iteration after the (possible) sleep: under the tracker mutex the head is re-validated         *)
+(* (FinishHead), then the holder is asked and the entry is dropped, re-queued or requested (FinishTail).  Goroutines   *)
+(* that do not take the tracker mutex - item arrival (RemovePull), RegisterPull of immediate requests - can run       *)
+(* between the two; AddPendingPush cannot.                                                                            *)
+FinishHead(s, o) ==
     LET idle == [s EXCEPT !.pc = "idle", !.obj = NoObj] IN
     IF HeadCheck /\ (s.pend = <<>> \/ Head(s.pend) # o) THEN idle      \* head changed while sleeping: start over
     ELSE IF s.pend = <<>> THEN idle       \* (unrepaired code would panic on an empty list; not reachable: only the loop removes)
+    ELSE [s EXCEPT !.pc = "crit", !.obj = o]
+FinishTail(s, o) ==
+    LET idle == [s EXCEPT !.pc = "idle", !.obj = NoObj] IN
+    IF s.pend = <<>> THEN idle
     ELSE IF o.h \in s.has THEN [idle EXCEPT !.pend = RemoveAt(@, 1)]
     ELSE IF s.active[o.h] = None THEN [idle EXCEPT !.pend = RemoveAt(@, 1)]
     ELSE IF s.active[o.h] > o.t THEN
          \* a newer pull is in flight: re-queue index 0 with the newer time (MoveWithNewTime(0, t))
          [idle EXCEPT !.pend = InsertSorted(RemoveAt(s.pend, 1), [Head(s.pend) EXCEPT !.t = s.active[o.h]])]
     ELSE Request([idle EXCEPT !.pend = RemoveAt(@, 1)], o.p, o.h)   \* emits the PEEKED request, removes INDEX 0
+Finish(s, o) == LET x == FinishHead(s, o) IN IF x.pc = "crit" THEN FinishTail(x, o) ELSE x
 
 (* top of the loop *)
 DoLoopPoll(s0) ==
@@ -143,6 +153,16 @@ DoLoopPoll(s0) ==
          ELSE Finish(s, o)
 
 DoLoopWake(s0) == Finish([s0 EXCEPT !.out = <<>>], s0.obj)
+
+(* the same two steps ending inside the critical section, and the step that leaves it *)
+DoLoopPollHold(s0) ==
+    LET s == [s0 EXCEPT !.out = <<>>] IN
+    IF s.pend = <<>> THEN s
+    ELSE LET o == Head(s.pend) IN
+         IF s.now - o.t < D THEN [s EXCEPT !.pc = "sleep", !.obj = o]
+         ELSE FinishHead(s, o)
+DoLoopWakeHold(s0) == FinishHead([s0 EXCEPT !.out = <<>>], s0.obj)
+DoLoopCrit(s0) == FinishTail([s0 EXCEPT !.out = <<>>], s0.obj)
 
 ---------------------------------------------------------------------------
 Install(s) == /\ now' = s.now /\ has' = s.has /\ cnt' = s.cnt /\ active' = s.active /\ pend' = s.pend
@@ -159,7 +179,9 @@ L(e, p, h) == lab' = [ev |-> e, p |-> p, h |-> h]
 \* the first announcement of an item takes the manager mutex; it waits while a pre-empted first
 \* announcer holds it
 MutexFree(h) == cnt[h] = 0 => \A x \in Hashes : late[x] # 2
-Announce(p, h) == MutexFree(h) /\ Install(DoAnnounce(State, p, h)) /\ L("Announce", p, h)
+\* an announcement that has to queue (AddPendingPush) waits for the tracker mutex while the loop is inside its critical section
+QueuesNot(h, c) == pc = "crit" => (h \in has \/ c < MaxPar)
+Announce(p, h) == MutexFree(h) /\ QueuesNot(h, cnt[h] + 1) /\ Install(DoAnnounce(State, p, h)) /\ L("Announce", p, h)
 AnnounceSplit(p, h) == /\ \A x \in Hashes : late[x] = 0          \* at most one pre-empted announcer at a time
                        /\ h \notin has /\ cnt[h] + 1 < MaxPar /\ MutexFree(h)
                        /\ Install(DoAnnounceSplit(State, p, h)) /\ L("AnnounceSplit", p, h)
@@ -167,12 +189,17 @@ AnnounceHold(p, h) == /\ h \notin has /\ cnt[h] >= 1 /\ Len(capw[h]) < MaxHold
                       /\ \A i \in 1..Len(capw[h]) : capw[h][i].p # p
                       /\ Install(DoAnnounceHold(State, p, h)) /\ L("AnnounceHold", p, h)
 AnnounceResume(p, h) == /\ \E i \in 1..Len(capw[h]) : capw[h][i].p = p
+                        /\ QueuesNot(h, capw[h][WaiterIdx(State, p, h)].c)
                         /\ Install(DoAnnounceResume(State, p, h)) /\ L("AnnounceResume", p, h)
 RegisterLate(h) == late[h] > 0 /\ Install(DoRegisterLate(State, h)) /\ L("RegisterLate", None, h)
 Arrive(h)      == h \notin has /\ Install(DoArrive(State, h)) /\ L("Arrive", None, h)
 Tick           == now < Horizon /\ Install(DoTick(State)) /\ L("Tick", None, None)
 LoopPoll       == pc = "idle" /\ Install(DoLoopPoll(State)) /\ L("LoopPoll", None, None)
 LoopWake       == pc = "sleep" /\ now - obj.t >= D /\ Install(DoLoopWake(State)) /\ L("LoopWake", None, None)
+LoopPollHold   == CritOn /\ pc = "idle" /\ pend # <<>> /\ now - Head(pend).t >= D
+                  /\ Install(DoLoopPollHold(State)) /\ L("LoopPollHold", None, None)
+LoopWakeHold   == CritOn /\ pc = "sleep" /\ now - obj.t >= D /\ Install(DoLoopWakeHold(State)) /\ L("LoopWakeHold", None, None)
+LoopCrit       == pc = "crit" /\ Install(DoLoopCrit(State)) /\ L("LoopCrit", None, None)
 
 Next == \/ \E p \in Peers, h \in Hashes : Announce(p, h)
         \/ \E p \in Peers, h \in Hashes : AnnounceSplit(p, h)
@@ -183,6 +210,9 @@ Next == \/ \E p \in Peers, h \in Hashes : Announce(p, h)
         \/ Tick
         \/ LoopPoll
         \/ LoopWake
+        \/ LoopPollHold
+        \/ LoopWakeHold
+        \/ LoopCrit
 
 Spec == Init /\ [][Next]_vars
 
@@ -220,7 +250,7 @@ FirstImmediate(pre, post, ev) ==
 \* passed since the last pull REGISTERED for that item (a request whose RegisterPull has not executed
 \* yet is invisible to the tracker; the guarantee is relative to registration)
 DelayRespected(pre, post, ev) ==
-    (ev.ev \in {"LoopPoll", "LoopWake"}) =>
+    (ev.ev \in {"LoopPoll", "LoopWake", "LoopCrit"}) =>
         \A i \in 1..Len(post.out) :
             LET h == post.out[i].h IN
             pre.regs[h] # <<>> => post.now - pre.regs[h][Len(pre.regs[h])] >= D
@@ -253,7 +283,7 @@ Broken(pre, post, ev) ==
 
 StepProps == [][Broken(State, State', lab') = ""]_vars
 
-TypeOK == /\ now \in 0..Horizon /\ has \subseteq Hashes /\ pc \in {"idle", "sleep"}
+TypeOK == /\ now \in 0..Horizon /\ has \subseteq Hashes /\ pc \in {"idle", "sleep", "crit"}
           /\ \A i \in 1..Len(pend) : pend[i].p \in Peers /\ pend[i].h \in Hashes
           /\ \A i \in 1..(Len(pend) - 1) : pend[i].t <= pend[i + 1].t      \* the list stays sorted
 
